@@ -130,3 +130,30 @@ Theorem C05_hsm_top :
     (exists b rest, bs = b :: rest /\ b_entry b = mkQ (qs_next s) m e a).
 Proof. intros hm ev. exact (top_trigger_fifo (HsmQueueIO.hqstep hm ev) HsmQueueIO.hnested_payload). Qed.
 Print Assumptions C05_hsm_top.
+
+(* ---------- hierarchical machines without a queue ---------- *)
+From M Require HReent.
+From P Require HReentP.
+(* An event triggered from a callback of an unqueued HIERARCHICAL machine is processed immediately and completely
+   (its whole trace follows the triggering callback's item), on the configuration of that moment, before the
+   callback returns; the outer event continues on the configuration the nested one left. *)
+Theorem C05_hsm_unqueued_nested :
+  forall (ev : env) (nested : event -> nat -> HReent.HM bool) (c : ctx) sl err cb p f m' e' tn f' b,
+    r_acts (ev cb p) = [ATrigger m' e'] -> r_raise (ev cb p) = None ->
+    nested e' (nested_payload_r p 0) (S p) f = (tn, f', inr b) ->
+    HReent.hcall ev nested c sl err cb p f =
+      (mkGItem sl cb (c_model c) f (ctx_arg c) (if c_send c then err else None) (r_ret (ev cb p)) [ATrigger m' e'] :: tn,
+       f', inr (r_ret (ev cb p))).
+Proof. exact HReentP.hcall_nested. Qed.
+Print Assumptions C05_hsm_unqueued_nested.
+
+(* The re-entrant hierarchical engine (the model the unqueued hierarchical classes are run against) IS the
+   hierarchical engine of C02/C03/C04 when callbacks perform no action - for every machine, environment,
+   configuration, position and fuel. *)
+Theorem C05_hsm_reentrant_refines :
+  forall (hm : Hsm.hmachine) (ev : env) (m : model) (fuel : nat) (e : event) (a : nat),
+    no_acts ev ->
+    forall p f, HReent.hrtrigger hm ev m (S fuel) e a p f =
+                Hsm.trigger_event hm ev (mkCtx m a (Hsm.hm_send_event hm)) e p f.
+Proof. intros hm ev m fuel e a NA. exact (HReentP.hrtrigger_refines hm ev m fuel e a NA). Qed.
+Print Assumptions C05_hsm_reentrant_refines.
